@@ -471,6 +471,28 @@ theorem lzw_translated :
 example : feed lzwInit LZW_CLEAR = .ok { nbits := 9, init := true, ext := [], prev := some [] } [] := rfl
 example : nbitsAfter 9 511 = 10 ∧ nbitsAfter 10 1023 = 11 ∧ nbitsAfter 11 2047 = 12 ∧ nbitsAfter 12 4095 = 12 := by decide
 
+/-- lzw.py, `LZWDecoder.readbits`: one iteration of the model's bit reader is the translated loop body
+(`r = 8 - self.bpos`; `v = (v << bits) | ((self.buff >> (r - bits)) & ((1 << bits) - 1))` when the
+bits fit, else `v = (v << r) | (self.buff & ((1 << r) - 1))` and the next byte is fetched) - the
+shifts and masks as Python writes them, for every state. -/
+theorem lzw_readbits_translated (rest : Bytes) (buff bpos bits v : Nat) :
+    readbits rest buff bpos bits v =
+      (if lzwFits bits (lzwAvail bpos) then
+         some (lzwTakeAll v bits buff (lzwAvail bpos), buff, bpos + bits, rest)
+       else match rest with
+         | [] => none
+         | x :: rest' => readbits rest' x.toNat 0 (bits - lzwAvail bpos) (lzwTakePart v (lzwAvail bpos) buff)) := by
+  cases rest with
+  | nil =>
+    simp only [readbits, lzwFits, lzwAvail, lzwTakeAll_eq, lzwTakePart_eq, decide_eq_true_eq]
+    by_cases h : bits ≤ 8 - bpos <;> simp [h]
+  | cons x r =>
+    simp only [readbits, lzwFits, lzwAvail, lzwTakeAll_eq, lzwTakePart_eq, decide_eq_true_eq]
+    by_cases h : bits ≤ 8 - bpos <;> simp [h]
+
+example : lzwTakeAll 5 3 0b10110100 6 = 0b101110 ∧ lzwTakePart 1 2 0b10110110 = 0b110 := by decide
+example : readbits [0x0B] 0x80 0 9 0 = some (256, 0x0B, 1, []) := by decide
+
 /-- runlength.py: one step of `rldecode` written with the translated EOD byte, literal / repeat
 tests and counts; the two tests exhaust the non-EOD length bytes. -/
 theorem rl_translated (fuel : Nat) (l : UInt8) (rest : Bytes) :
